@@ -5,6 +5,7 @@ PID = "C15"
 PRELUDE = H.PRELUDE
 FAILING = H.FAILING
 SHARD = 60
+IMPL_BATCH = 125      # histories per implementation subprocess (each step scans gc.get_objects(): keep batches small)
 RULE = ("random histories of 10-45 operations biased towards vectors built over shared caller tuples, writes, column "
         "replacement, promotion (float into int), drops, delayed collection (reference cycles + explicit gc) and "
         "re-allocation of equal-length tuples (identity reuse); distinct = canonical JSON of the program; non-trivial = "
